@@ -29,10 +29,42 @@ PARSER_ASSUMPTIONS = [
     "ASan+UBSan build explores the same enumeration one token shorter",
 ]
 
+def parser_check(cid, explanation, extra=(), quick=300, thorough=1800):
+    return dict(src=["checks/%s.cpp" % cid], nitro=["options", "env"], variants=PLAIN_ASAN, runs=both,
+                deadline_s={"quick": quick, "thorough": thorough}, assumptions=PARSER_ASSUMPTIONS + list(extra),
+                explanation=explanation)
+
+
 CHECKS = {
     "C01": dict(src=["checks/C01.cpp"], nitro=["options", "env"], variants=PLAIN_ASAN, runs=both,
                 deadline_s={"quick": 240, "thorough": 1500}, assumptions=PARSER_ASSUMPTIONS,
                 explanation="every declaration of a 540-grid x every argument vector up to the bound over the declaration's "
                             "relational token alphabet, real parser vs reference model; states/transitions are those of the "
                             "reference automaton visited, every execution runs the implementation"),
+    "C04": dict(src=["checks/C04.cpp"], nitro=["options", "env"], variants=PLAIN_ASAN, runs=both,
+                deadline_s={"quick": 300, "thorough": 1800}, assumptions=PARSER_ASSUMPTIONS + [
+                    "totality is judged per case by fork isolation: signal, abort, std::terminate, sanitizer report and a per-case timer (10 s, re-run alone with 100 s before calling it a hang)",
+                    "multi-option environment values with leading/trailing ';' are not generated"],
+                explanation="12 declarations x every argument vector up to the bound over a 48-token byte-level alphabet x environments "
+                            "+ long-token stress cases; oracle = totality + exact accept/reject boundary of the reference automaton"),
+    "C12": parser_check("C12", "accepted count {0,1,2,3,unlimited} x greedy x every vector up to the bound over a 14-token alphabet "
+                               "(values, `--`, malformed dash tokens, declared/undeclared spellings); positional list, accept/reject and "
+                               "every index in [-m-1,m] against the reference",
+                        ["out-of-range indices -m-1 and m: only memory safety is judged (ASan build)"]),
+    "C11": parser_check("C11", "48 toggle declarations x every vector up to the bound over a 14-token occurrence alphabet (long, short, "
+                               "repeated letters, bundles, --no- forms in all orders); environment words through parse(); closed-world "
+                               "check of the truthy/falsy vocabulary over every string up to the bound, all case variants, single edits"),
+    "C03": parser_check("C03", "3 kinds x command-line spellings x environment {unbound, unset, empty, 17 byte-level values incl. dash-leading, "
+                               "'=' and ';'} x default x optional/required, singly and as ordered pairs in one parser; value, provided flag "
+                               "and accept/reject against the reference",
+                        ["multi-option environment values with a leading or trailing ';' are not generated (statement is silent)"]),
+    "C02": parser_check("C02", "every assignment of <= k items over a byte-level value alphabet x every rendering (4 option forms, long/short "
+                               "toggles, all bundlings of adjacent short toggles, every item order, every placement of `--`), with and without "
+                               "short names; the parse result must equal the assignment the generator rendered; typed access for decimal texts",
+                        ["the expectation is the generator's assignment; the reference automaton is cross-checked against it on every case"]),
+    "C14": parser_check("C14", "3 declarations x every sequence of <= h (argument vector, environment) events on ONE parser object, "
+                               "each outcome compared with a freshly built identical parser (differential oracle); BFS with "
+                               "de-duplication on the option objects' publicly observable state to a fixpoint / depth bound",
+                        ["BFS de-duplication keys on the state visible through the public API (values, counts, has_non_default); hidden state "
+                         "outside it is only covered by the un-deduplicated depth-h enumeration"]),
 }
